@@ -347,6 +347,9 @@ func newSrvConn(k int, c *vnet.Conn) *srvConn {
 }
 
 // read returns the next non-space unit from the client.
+// srvSkipApp: stanzas that a goroutine of the application sends at any time (C04) do not disturb the script
+var srvSkipApp bool
+
 func (s *srvConn) read() unit {
 	if len(s.pending) > 0 {
 		u := s.pending[0]
@@ -365,6 +368,9 @@ func (s *srvConn) read() unit {
 			continue
 		}
 		vrt.Tracef("srv#%d <- %s", s.k, u)
+		if srvSkipApp && u.kind == "element" && u.name == "message" && strings.Contains(u.raw, "from the application") {
+			continue // recorded in Units; the scripted negotiation goes on as if it had not come
+		}
 		return u
 	}
 }
